@@ -245,7 +245,7 @@ Val(e, cx) ==
                      RECURSIVE S(_)
                      S(i) == IF i = 0 THEN Zero ELSE RAdd(a.d[i], S(i - 1))
                  IN  IF IsErr(a) THEN a ELSE Sc(S(Len(a.d)))
-            ELSE IF e.n \in Elementary THEN
+            ELSE IF e.n \in Elementary \/ e.n = "delay" THEN      \* delay(e, d): uninterpreted here (C22 owns it)
                  LET a == Val(e.a[1], cx) IN IF IsErr(a) THEN a ELSE V(a.sh, [i \in DOMAIN a.d |-> Und])
             ELSE IF IsUserFunc(cx.P, e.n) THEN
                  LET r == CallAll(e.n, e.a, cx)                 \* expression context: the first output
